@@ -308,6 +308,13 @@ def run(ctx):
                         (b'\x80\x04\x8c\nverif_cold\x8c\x04fire\x93.', 'STACK_GLOBAL'), (b'(iverif_cold\nfire\n.', 'INST')):
     for target in ('receiver', 'query'):
       recs.append(record(e13, [('global' if what != 'INST' else 'inst', 'othermod')], payload, target, 'not-yet-imported module, ' + what))
+  # INST is the one opcode that names a global in-line without GLOBAL / STACK_GLOBAL / EXT: frames whose bytes contain
+  # none of those opcode values anywhere (no 'c', 0x93, 0x82-0x84)
+  for payload, what in ((b'(ivkanary\nfire\n.', 'bare INST'), (b'(I1\nivkanary\nfire\n.', 'INST with an argument'),
+                        (b'(lp0\n(ivkanary\nBoom\nap1\n.', 'INST inside a list'), (b'(S\'a\'\n(F1.0\nF2.0\ntt(ivkanary\nfire\nl.', 'INST after a datapoint')):
+    assert not (set(payload) & {0x63, 0x93, 0x82, 0x83, 0x84})
+    for target in ('receiver', 'query'):
+      recs.append(record(e13, [('inst', 'othermod')], payload, target, 'INST-only frame, ' + what))
   # configuration: every spelling of "off" that carbon.conf accepts must select the safe unpickler
   import os
   from carbon.conf import Settings
